@@ -477,9 +477,21 @@ impl BitDepth {
                 let is_signed = (sample & (1u32 << (bits_per_sample - 1))) != 0;
                 let mantissa = sample & mantissa_mask;
                 let exp = ((sample & exp_mask) >> mantissa_bits) as i32;
-                let exp = exp - ((1 << (exp_bits - 1)) - 1);
+                let bias = (1 << (exp_bits - 1)) - 1;
+                if exp == 0 {
+                    // Zero or subnormal value: mantissa * 2^(1 - bias - mantissa_bits).
+                    // mantissa < 2^23 and the exponent is at least -149, so this is exact in `f32`.
+                    let scale_exp = 1 - bias - mantissa_bits as i32;
+                    let scale = if scale_exp >= -126 {
+                        f32::from_bits(((scale_exp + 127) as u32) << 23)
+                    } else {
+                        f32::from_bits(1u32 << (scale_exp + 149))
+                    };
+                    let val = mantissa as f32 * scale;
+                    return if is_signed { -val } else { val };
+                }
+                let exp = exp - bias;
 
-                // TODO: handle subnormal values.
                 let f32_mantissa_bits = f32::MANTISSA_DIGITS - 1;
                 let mantissa = match mantissa_bits.cmp(&f32_mantissa_bits) {
                     std::cmp::Ordering::Less => mantissa << (f32_mantissa_bits - mantissa_bits),
